@@ -96,6 +96,9 @@ def run(w: World, rep: Report):
             if isinstance(s, ast.If) and not s.orelse and len(s.body) == 1 and isinstance(s.body[0], ast.Raise) and \
                     body.index(s) < body.index(tr):
                 continue              # argument validation spelled `if not ok: raise TypeError(..)`
+            if isinstance(s, ast.Assign) and len(s.targets) == 1 and isinstance(s.targets[0], ast.Name) and \
+                    body.index(s) < body.index(tr) and _pure_validation_expr(s.value):
+                continue              # a validation condition computed into a local first (type()/len()/all(..) over arguments)
             if _stmt_may_raise(s):
                 outside.append(s)
         rep.check('C01.R2', 'functions.run_auth_scripts|outside-try', not outside, file=rel,
@@ -434,6 +437,20 @@ def run(w: World, rep: Report):
         'tape.pointer',
         'python is not run with -O (the verdict checks are assert statements)',
     ]
+
+
+def _pure_validation_expr(e: ast.AST) -> bool:
+    """Only builtin predicates / constructors over names: type(x), len(x), all([... for ..]), isinstance(..)."""
+    PURE = {'type', 'len', 'all', 'any', 'isinstance', 'bool', 'tuple', 'list', 'issubclass'}
+    for n in ast.walk(e):
+        if isinstance(n, ast.Call):
+            if not (isinstance(n.func, ast.Name) and n.func.id in PURE):
+                return False
+        elif isinstance(n, (ast.Subscript, ast.BinOp, ast.Await, ast.Yield, ast.Lambda)):
+            return False
+        elif isinstance(n, ast.Attribute):
+            return False
+    return True
 
 
 def _stmt_may_raise(s: ast.stmt) -> bool:
